@@ -21,7 +21,8 @@ REQUIRED_COUNTERS = {"plans_with_greenlets": {"quick": 20, "thorough": 200},
                      "plans_with_frameless_ancestor_greenlets": {"quick": 20, "thorough": 200},
                      "extract_until_frame_limits": {"quick": 500, "thorough": 5000},
                      "slices_checked": {"quick": 20000, "thorough": 400000},
-                     "calls_from_lookalike_modules": {"quick": 300, "thorough": 3000}}
+                     "calls_from_lookalike_modules": {"quick": 300, "thorough": 3000},
+                     "extractions_from_a_resumed_frame": {"quick": 200, "thorough": 600}}
 SHARD_TIMEOUT = {"quick": 400, "thorough": 5400}
 EXHAUSTIVE = {"quick": False, "thorough": False}
 
@@ -239,4 +240,71 @@ def worker(spec):
             res.count("plans_with_frameless_ancestor_greenlets")
         if len(res.samples) < 2 and len(p) >= 3:
             res.sample({"plan": p, "stack_depth": box.get("n")})
+
+    # one live generator / coroutine frame extracting its own running stack again and again while it is
+    # resumed from different call chains: its callers are whoever resumed it *this* time
+    import types as _types
+
+    @_types.coroutine
+    def _park():
+        yield
+
+    def judge_resumed(tag, me, got):
+        T = truth_frames(me)
+        N = len(T)
+        res.count("extractions_from_a_resumed_frame")
+        check(("resumed-since", tag, None, None), "extract_since", got[0], T)
+        check(("resumed-since", tag, 0, None), "extract_since", got[1], T)
+        check(("resumed-until", tag, N - 1, None), "extract_until", got[2], T)
+        check(("resumed-until", tag, N - 1, 2), "extract_until", got[3], T[-2:])
+        check(("resumed-slice", tag, None, 3), "StackSlice", got[4], T[-3:])
+
+    # the extraction calls are made by the long-lived frame itself (it is the caller, the start of the walk)
+    def reporting_gen():
+        n = 0
+        while True:
+            me = sys._getframe(0)
+            got = (extract_since(None, with_contexts=False), extract_since(truth_frames(me)[0], with_contexts=False),
+                   extract_until(me, with_contexts=False), extract_until(me, limit=2, with_contexts=False),
+                   extract(StackSlice(limit=3), with_contexts=False))
+            judge_resumed(("gen", n), me, got)
+            n += 1
+            yield n
+
+    async def reporting_coro():
+        n = 0
+        while True:
+            me = sys._getframe(0)
+            got = (extract_since(None, with_contexts=False), extract_since(truth_frames(me)[0], with_contexts=False),
+                   extract_until(me, with_contexts=False), extract_until(me, limit=2, with_contexts=False),
+                   extract(StackSlice(limit=3), with_contexts=False))
+            judge_resumed(("coro", n), me, got)
+            n += 1
+            await _park()
+
+    def pump(step, depth):
+        if depth:
+            return pump(step, depth - 1)
+        return step()
+
+    def pump_other(step, depth):
+        # a different chain of callers of the same length
+        if depth:
+            return pump_other(step, depth - 1)
+        return step()
+
+    state["plan"] = "resumed-frame"
+    g = reporting_gen()
+    c = reporting_coro()
+    seq = (0, 3, 1, 5, 2, 0, 4, 4, 1) * (2 if spec.get("budget_s", 60) < 100 else 6)
+    # each on its own (nothing else extracts in between), then interleaved
+    for i, depth in enumerate(seq):
+        (pump if i % 2 else pump_other)(lambda: next(g), depth)
+    for i, depth in enumerate(seq):
+        (pump_other if i % 2 else pump)(lambda: c.send(None), depth)
+    for i, depth in enumerate(seq):
+        (pump if i % 2 else pump_other)(lambda: next(g), depth)
+        (pump_other if i % 2 else pump)(lambda: c.send(None), depth)
+    g.close()
+    c.close()
     return res
